@@ -2,6 +2,7 @@
 //! writes, per engine, the request lines for the Lean driver, the implementation's canonical
 //! observations and the verdicts of the implementation-side oracles.
 mod isdyn;
+mod listmap;
 mod num;
 mod reactive;
 mod route;
@@ -50,6 +51,7 @@ fn main() {
         "route" => route::run(&args),
         "num" => num::run(&args),
         "isdyn" => isdyn::run(&args),
+        "listmap" => listmap::run(&args),
         "reactive" => reactive::run(&args),
         e => {
             eprintln!("unknown engine {e}");
